@@ -19,7 +19,7 @@ import numpy as np
 from . import common as C
 
 PID = "C17"
-OWN_FILES = ["Model/Dgc.v", "Model/DgcRun.v", "Proofs/DgcFacts.v", "Proofs/DgcGeom.v", "Proofs/DgcEval.v"]
+OWN_FILES = ["Model/Dgc.v", "Model/DgcRun.v", "Proofs/DgcFacts.v", "Proofs/DgcGeom.v", "Proofs/DgcEval.v", "Proofs/DgcMain.v"]
 
 
 # ---------------------------------------------------------------- build of the property's own files
@@ -66,6 +66,13 @@ def make_model(g, seed):
     torch.manual_seed(seed)
     m = DgcSpn((g["C"], g["D"], g["D"]), out_classes=g["classes"], n_batch=g["batch"], sum_channels=g["sumc"],
                depthwise=list(g["dw"]), n_pooling=g["n"])
+    # the constructor's Dirichlet initialisation stores log-probabilities, i.e. weights that are already
+    # normalised; move them off that manifold so that normalisation really depends on the layers' softmax
+    from deeprob.spn.layers.dgcspn import SpatialSumLayer
+    with torch.no_grad():
+        for l in list(m.layers) + [m.root_layer]:
+            if isinstance(l, SpatialSumLayer) or l is m.root_layer:
+                l.weight.add_(0.7 + 0.8 * torch.randn(l.weight.shape))
     m.eval()
     return m
 
@@ -188,9 +195,12 @@ def direct_oracle(g, seed, rs=None):
         if r.shape != x2m.shape or not np.array_equal(r[~mask], x2[~mask]):
             return dict(what="mpe changed an observed pixel", x=x2m.tolist(), mpe=np.asarray(r).tolist())
         loc = m.base_layer.loc.detach().numpy()
+        # (the gradient in mpe is taken of the SUM of the class outputs, so the estimate is the sum over
+        #  classes of one convex combination of the modes per class: estimate / classes lies in the hull)
+        K = float(g["classes"])
         lo, hi = loc.min(0) - 1e-3, loc.max(0) + 1e-3
-        if not np.all(np.isfinite(r)) or np.any((r < lo[None])[mask]) or np.any((r > hi[None])[mask]):
-            return dict(what="mpe filled a missing pixel with a value outside the hull of the leaf modes",
+        if not np.all(np.isfinite(r)) or np.any((r / K < lo[None])[mask]) or np.any((r / K > hi[None])[mask]):
+            return dict(what="mpe filled a missing pixel with a value outside the hull of the leaf modes (times the number of classes)",
                         x=x2m.tolist(), mpe=np.asarray(r).tolist())
         if not np.array_equal(np.isnan(xin.numpy()), mask):
             return dict(what="mpe modified its input")
@@ -363,7 +373,10 @@ def main(tier, seed, replay=None):
         if f:
             oracle_fail.append((g, f))
         # forward values at exact rationals (small sides only: the model recursion is not memoised)
-        small = g["D"] <= 4 and (g["D"] <= 3 or all(t[9] for t in lt if t[0] == 0) or g["batch"] * g["sumc"] <= 2)
+        cost = root[0] * root[1] ** 2          # leaves visited by the (top-down, un-memoised) model evaluation
+        for t in lt:
+            cost *= 4 if t[0] == 0 else t[1]
+        small = g["D"] <= 4 and cost <= 30000
         if small and eval_budget > 0:
             eval_budget -= 1
             txt, x = eval_case(m, g, rs)
@@ -384,15 +397,22 @@ def main(tier, seed, replay=None):
                 rep.count(["use", g, ridx[k], u, k])
     rep.cov["input_distribution"] = dist
     # ---- run the model on the same inputs
-    shard = 40
+    # eval cases are the expensive ones (one per file); the others are spread over 12 files
+    order = [i for i, c in enumerate(cases) if c[0] == "eval"]
+    groups = [[i] for i in order]
+    rest = [i for i, c in enumerate(cases) if c[0] != "eval"]
+    nf = 12
+    groups += [rest[j::nf] for j in range(nf) if rest[j::nf]]
     files = []
-    for s in range(0, len(cases), shard):
-        items = [c[2] for c in cases[s:s + shard]]
-        files.append((f"cases_{s // shard}", HEADER + "Eval vm_compute in ([" + ";\n".join(items) + "]).\n"))
+    for k, grp in enumerate(groups):
+        files.append((f"cases_{k}", HEADER + "Eval vm_compute in ([" + ";\n".join(cases[i][2] for i in grp) + "]).\n"))
+    import time as _t
+    t_impl = _t.time() - rep.t0
     res = C.run_case_files(PID, files)
+    rep.cov["timing_s"] = dict(proof_and_implementation=round(t_impl, 1), model_cases=round(_t.time() - rep.t0 - t_impl, 1))
     flagged = []
-    for (name, rc, ints, raw), s in zip(res, range(0, len(cases), shard)):
-        chunk = cases[s:s + shard]
+    for (name, rc, ints, raw), grp in zip(res, groups):
+        chunk = [cases[i] for i in grp]
         if rc != 0 or ints is None or len(ints) != len(chunk):
             rep.obligation(False)
             rep.violation(dict(kind="correspondence-shard-failed", shard=name, log=raw), False)
@@ -429,5 +449,6 @@ def main(tier, seed, replay=None):
                        "constructor-only cases (rejected arguments, sides outside the divisibility premise, side 1). one evaluation = one case "
                        "compared inside Coq or one oracle run; non-trivial = configuration accepted by the constructor; distinct by content hash"
                        % (8 if tier == "quick" else 12, 2 if tier == "quick" else 5, n_use))
-    C.clean_gen(PID)
+    if not os.environ.get("VERIF_KEEP_GEN"):
+        C.clean_gen(PID)
     return rep.finish("proof")
